@@ -1467,6 +1467,7 @@ class QueryBuilder(Selectable, Term):  # type:ignore[misc]
             ),
             with_alias=False,
             subquery=True,
+            subcriterion=False,
         )
 
         if self._update_table:
